@@ -433,5 +433,13 @@ def run(ctx) -> None:
     check_converted_then_guessed(ctx, 'D8', only_attrs={'layerthickness', 'gradient'})
     from rules.helper_contract import run_shared
     run_shared(ctx, None, 'D9', 5)
+    ctx.rule('D10', 'the gradient / thickness lists a run integrates are its own: no list-valued declaration argument of a reservoir class is an '
+                    'object shared between instances (the readers write segment values into the list in place, so a shared default carries '
+                    'the previous run\'s gradients into a run that leaves them out) (C08 P3)')
+    from gxstat.runner import Renamed
+    from rules.c08 import check_p3
+    n0 = len(ctx.obligations)
+    check_p3(Renamed(ctx, {'P3': 'D10'}, key_filter=lambda k: 'Reservoir' in k.split('/')[0] and ('fresh' in k or 'shared-object' in k)))
+    ctx.floor('D10', len(ctx.obligations) - n0, 2, 'list-valued reservoir declarations')
     ctx.undecided('Stehfest / Talbot Laplace inversions (models 1, 2)', 'the next()/max() layer search for arbitrary layouts', 'Ramey wellbore model numerics')
     ctx.assume('erf maps [0, inf) into [0, 1) and is increasing')
